@@ -231,27 +231,37 @@ class CFG:
         avoid: Optional[Callable[[N], bool]] = None,
         may_raise: Optional[Callable[[N], bool]] = None,
         include_start: bool = True,
+        exc_through: bool = False,
     ) -> Set[int]:
         """Ids of nodes reachable from `start` without passing *through* a node
-        satisfying `avoid` (such nodes are not entered)."""
+        satisfying `avoid` (such nodes are not entered).  With exc_through, an
+        avoided statement that raises has not had its effect: its handlers are
+        still reached (try: d[k].append(x) / except KeyError: ...)."""
         seen: Set[int] = set()
         stack: List[N] = []
+
+        def push(t: N) -> None:
+            if avoid is None or not avoid(t):
+                stack.append(t)
+            elif exc_through and may_raise is not None and may_raise(t):
+                for h in t.exc:
+                    if h.kind != "exit_exc" and (avoid is None or not avoid(h)):
+                        stack.append(h)
+
         for s in start:
             if include_start:
-                if avoid is None or not avoid(s):
-                    stack.append(s)
+                push(s)
             else:
                 for t in self.successors(s, may_raise):
-                    if avoid is None or not avoid(t):
-                        stack.append(t)
+                    push(t)
         while stack:
             n = stack.pop()
             if n.id in seen:
                 continue
             seen.add(n.id)
             for t in self.successors(n, may_raise):
-                if t.id not in seen and (avoid is None or not avoid(t)):
-                    stack.append(t)
+                if t.id not in seen:
+                    push(t)
         return seen
 
     def dominated_by(
@@ -260,13 +270,15 @@ class CFG:
         pred: Callable[[N], bool],
         *,
         may_raise: Optional[Callable[[N], bool]] = None,
+        exc_through: bool = False,
     ) -> bool:
         """Every path entry -> target passes through a node satisfying pred
         (target itself does not count)."""
         if pred(self.entry):
             return True
         r = self.reachable(
-            [self.entry], avoid=lambda n: n is not target and pred(n), may_raise=may_raise
+            [self.entry], avoid=lambda n: n is not target and pred(n), may_raise=may_raise,
+            exc_through=exc_through,
         )
         return target.id not in r
 
